@@ -73,6 +73,24 @@ CHECKS["C18"] = dict(text="For recorded fits on integer data the specification c
     "the fitted map by 8 rational angles in every coordinate plane (reduced-space signed permutations in projector mode). No design-level state space: "
     "TLC acts as evaluator of the specification and enumerator of competitors.", ref="6/C18",
     tech="TLC evaluates fixed-point defining equations on recorded fits and enumerates competitor orthogonal maps")
+CHECKS["C14"] = dict(text="For chains of recorded fits (both spaces, every k from 1 to min(n,m), mixing in (0,1], 1-D and 2-D targets, new data) TLC "
+    "evaluates in fixed point the identities among the implementation's own outputs: transform = X pxt_, predict(X) = predict(T=transform(X)), T^T T = "
+    "diag(retained eigenvalues), transform(inverse_transform(T)) = T, pxy_ = pxt_ pty_, nestedness of the components in k (when the spectrum is separated), "
+    "non-increasing losses in k, score = -(sum of relative losses), 1-D shapes. No design-level state space: TLC is the evaluator of the specification.", ref="6/C14",
+    tech="TLC evaluates fixed-point identities of the TLA+ specification on recorded PCovR fits")
+CHECKS["C03"] = dict(text="For groups of recorded fits of the same data, mixing and k through every route (feature / sample space x full / arpack / "
+    "randomized solver x default Ridge / Ridge(alpha) / LinearRegression / precomputed Yhat with and without W; tall, wide, square and rank-deficient "
+    "centred lattices) TLC rebuilds the modified Gram matrix from X and the logged regressed targets and checks the eigen-certificate of every fit "
+    "(Kt T = T Lam, spectrum decreasing, explained variance = lam/(n-1), Frobenius deflation bound for top-k-ness) and that all routes of a group agree "
+    "on latent coordinates up to column signs, predictions, reconstruction and spectrum whenever the specification finds the retained spectrum separated.", ref="6/C03",
+    tech="TLC evaluates eigen-certificates and route-agreement registers of the TLA+ specification on recorded PCovR fits")
+CHECKS["C04"] = dict(text="For chains of recorded fits along the mixing grid 0, 1/8, ..., 1 (fixed data and k) TLC checks, with the modified Gram matrix "
+    "rebuilt from X and the logged Yhat: the eigen-certificate of each fit; optimality of the mixed objective against competitor k-dimensional subspaces "
+    "- every coordinate subspace (all k-subsets of the sample axes, enumerated by TLC), the PCA and regression subspaces, random subspaces and "
+    "perturbations of the fitted one (bases verified orthonormal), and the fitted subspace rotated by 6 rational Givens angles in every coordinate "
+    "plane; mixing=1 = PCA (eigenbasis witness verified, scores computed by the specification); mixing=0 with k >= targets = linear regression "
+    "(normal equations verified on the logged Yhat); losses monotone along the grid.", ref="6/C04",
+    tech="TLC evaluates the mixed objective for TLC-enumerated and verified competitor subspaces on recorded PCovR fits; action-style monotonicity along the mixing grid")
 NA = {}
 def main():
     props = [json.loads(l)["id"] for l in open(os.path.join(HERE, "properties.jsonl"))]
